@@ -72,6 +72,41 @@ func VH_slice_Rotate() {
 	}
 }
 
+// VH_slice_RotateLong: long slices (beyond any small-size code path), a few offsets.
+func VH_slice_RotateLong() {
+	n := vCase("n")
+	ss := vMkInts(n + 1)[:n]
+	orig := append([]int{}, ss...)
+	k := []int{1, -1, 2, n / 2, n - 1, -(n - 1), n/2 + 1, n, -n, 0}[vChoice("k", 10)]
+	Rotate(ss, k)
+	vCover("rotate-long")
+	for i := 0; i < n; i++ {
+		j := ((i+k)%n + n) % n
+		vAssert(ss[j] == orig[i], "Rotate (long): element i ends at (i+k) mod n")
+	}
+}
+
+// VH_slice_ChunksHuge: every chunk size from len(vs) up to the largest int is allowed
+// and yields the input as a single chunk; the size is a solver variable.
+func VH_slice_ChunksHuge() {
+	ln := vCase("n")
+	vs := vMkInts(ln)
+	n := vRange("size", ln, 1<<63-1)
+	var out [][]int
+	panicked, _ := vPanics(func() { out = Chunks(vs, n) })
+	vCover("chunks-huge")
+	vAssert(!panicked, "Chunks: no panic for any n >= len(vs)")
+	if !panicked {
+		vAssert(len(out) == 1 || ln == 0 && len(out) <= 1, "Chunks: a single chunk when n >= len(vs)")
+		if len(out) == 1 {
+			vAssert(len(out[0]) == ln, "Chunks: the single chunk is the whole input")
+		}
+	}
+	var bs [][]int
+	p2, _ := vPanics(func() { bs = Batches(vs, n) })
+	vAssert(!p2 && len(bs) == ln, "Batches: no panic and len(vs) batches for any n >= len(vs)")
+}
+
 func vCheckPieces(vs []int, pieces [][]int, what string) {
 	// consecutive, capacity-clipped, concatenation = vs
 	pos := 0
